@@ -37,7 +37,11 @@ TraceStep ==
            two channels into clashing notes) an operation may legitimately depend on the order of equal-tick messages,
            which the projection does not fix: the oracle is then not used and the observed content is taken as the truth *)
         oracle == r.exp.readable /\ (st0.truth.wf \/ r.op = "iter_edit")   \* an in-turn edit's expectation is the iterated view itself
-        c == IF IsMutating(r.op) THEN (IF oracle THEN ViewsContent(r.exp) ELSE pa0) ELSE st0.truth
+        (* two history-free twins: one rebuilt from the projected content, one a deep copy with both views refreshed (it keeps
+           the object's own order of equal-tick messages); the operation's effect must equal one of them *)
+        c1 == ViewsContent(r.exp)
+        c2 == IF r.exp2.readable THEN ViewsContent(r.exp2) ELSE c1
+        c == IF IsMutating(r.op) THEN (IF oracle THEN (IF pa0 = c2 THEN c2 ELSE c1) ELSE pa0) ELSE st0.truth
         st1 == IF r.op \in FineOps THEN ApplyFine(st0, r.op, c) ELSE Apply(st0, r.op, c)
         legal == (r.op \in FineOps \/ Enabled(st0, r.op)) /\ Readable(st1)
         pa == ContentAbs(r.post.abs)
